@@ -21,9 +21,20 @@ from translate import imports as tr
 PY = "/venv/bin/python"
 
 RUNNER = r'''
-import sys, json, importlib, traceback, os
-repo = sys.argv[1]; mods = json.loads(sys.argv[2])
+import sys                      # NOTHING else may be imported before the imports under test: the point of C01
+repo = sys.argv[1]; mods = sys.argv[2].split(",") if sys.argv[2] else []
 sys.path.insert(0, repo)
+raised = []
+for m in mods:
+    try:
+        __import__(m)           # what the statement `import m` executes
+        raised.append(None)
+    except BaseException as ex:
+        raised.append(ex)
+loaded = {k: (getattr(v, "__file__", None), sorted(vars(v))) for k, v in sorted(sys.modules.items())
+          if k == "ioflo" or k.startswith("ioflo.")}
+# ---- reporting only from here on
+import json, traceback, os
 root = os.path.join(repo, "ioflo") + os.sep
 def where(tb):
     hit = ("__main__", 0)
@@ -42,11 +53,10 @@ def cls(ex):
             return n
     return "Other"
 out, detail = [], []
-for m in mods:
-    try:
-        importlib.import_module(m)
+for ex in raised:
+    if ex is None:
         out.append("ok"); detail.append("")
-    except BaseException as ex:
+    else:
         w = where(ex.__traceback__)
         out.append("ERR %s %s %d" % (cls(ex), w[0], w[1]))
         detail.append("%s: %s" % (type(ex).__name__, str(ex)[:300]))
@@ -57,14 +67,10 @@ def fnv(s):
     return h
 state = []
 wrong = None
-for k in sorted(sys.modules):
-    if k == "ioflo" or k.startswith("ioflo."):
-        mod = sys.modules[k]
-        f = getattr(mod, "__file__", None)
-        if f and not os.path.abspath(f).startswith(root):
-            wrong = f
-        names = sorted(vars(mod))
-        state.append("%s:%d:%016x" % (k, len(names), fnv(",".join(names))))
+for k, (f, names) in loaded.items():
+    if f and not os.path.abspath(f).startswith(root):
+        wrong = f
+    state.append("%s:%d:%016x" % (k, len(names), fnv(",".join(names))))
 sys.stdout.write("\n@@C01@@" + json.dumps({"out": out, "detail": detail, "state": state, "wrong": wrong}) + "\n")
 '''
 
@@ -84,7 +90,8 @@ class CHECK(core.Check):
     N_THOROUGH = 200
     N_SEARCH = 8
     RULE = ("a case is an ordered list of ioflo module names imported into ONE fresh interpreter. Exhaustive: every "
-            "module alone (quick and thorough), every ordered pair of modules of the same package (thorough). Generated: "
+            "module alone (quick and thorough), every ordered pair of modules of the same package (thorough; of the pairs "
+            "whose two modules are both loaded by `import ioflo` itself only every 7th). Generated: "
             "random orders of random subsets (2..all modules, with repeats and with the top-level package at a random "
             "position). Non-trivial = the order loads at least one module; distinct by the order")
     TRUSTED = ["translator harness/translate/imports.py: ast extraction of import-time events (module level, class bodies, "
@@ -96,17 +103,27 @@ class CHECK(core.Check):
                "correspondence runs real imports in clean subprocesses of /venv/bin/python -I with sys.path[0] = tree under test"]
     PARTIAL = ["C01_each_cold_partial: excludes the region staleFrom (known finding D01c: two stale test modules import the "
                "removed ioflo.aio.nonblocking)",
+               "C01_any_order_core_partial: in ANY sequence of imports of modules of the tree, every import of a module "
+               "that `import ioflo` itself loads (55 of the 150 module files) succeeds; C01_after_root_partial: every module "
+               "outside D01c imports after `import ioflo`; C01_reimport: once imported, always importable. NOT proved "
+               "(only exercised by the ordered pairs and random orders of the correspondence): that the FIRST import of a "
+               "module outside that set succeeds after arbitrary other imports (C01_any_order_full)",
                "outside the model: imports and name uses inside function bodies executed at import time, dynamic namespace "
-               "manipulation (globals().update), conditions the translator cannot fold (listed under translator_notes)"]
+               "manipulation (globals().update), conditions the translator cannot fold (listed under translator.notes)"]
     TECHNIQUE = ("Lean 4: interpreter of CPython's import protocol over an import graph regenerated from the source on every "
                  "run; finite table by kernel evaluation (decide +kernel) + generic lemmas; differential correspondence "
                  "against real cold imports in clean subprocesses")
     LEVEL_TEXT = ("Proof over a regenerated model: C01_each_cold_partial (every module file of the tree imports in the model "
-                  "of a newly started interpreter, except the two modules of known finding D01c) is a finite table checked "
-                  "by the Lean kernel on the graph generated from the current source; the shared cold import of the root "
-                  "package is justified by the generic lemma findAndLoad_via. The model is tied to CPython by comparing, "
-                  "for every module alone and for random import orders, the outcome of every import and the names bound "
-                  "in every loaded module with real imports in clean interpreters.")
+                  "of a newly started interpreter, except the two modules of known finding D01c, whose failure is "
+                  "C01_counterexample_D01c) is a finite table checked by the Lean kernel on the graph generated from the "
+                  "current source; the shared cold import of the root package is justified by the generic lemma "
+                  "findAndLoad_via. Order: the generic theorems importModule_mono (an import never removes a module from "
+                  "sys.modules) and importModule_again give C01_any_order_core_partial (in any sequence of imports every "
+                  "import of a module that `import ioflo` itself loads succeeds), C01_after_root_partial and C01_reimport; "
+                  "for first imports of the other modules in non-fresh states order independence is "
+                  "exercised, not proved. The model is tied to CPython by comparing, for every module alone, for ordered "
+                  "pairs and for random import orders, the outcome of every import and the names bound in every loaded "
+                  "module with real imports in clean interpreters.")
     LEVEL_NOTE = ("Trusted: Lean kernel; axioms propext, Classical.choice, Quot.sound; the translator (ast extraction, "
                   "measurement of stdlib modules) and the import semantics of Model/Imports.lean, both validated only by "
                   "the correspondence runs; function bodies executed at import time are outside the model.")
@@ -150,7 +167,7 @@ class CHECK(core.Check):
 
     # ------------------------------------------------------------------ real side
     def _run(self, order):
-        p = subprocess.run([PY, "-I", "-c", RUNNER, self.repo, json.dumps(order)], capture_output=True, text=True,
+        p = subprocess.run([PY, "-I", "-c", RUNNER, self.repo, ",".join(order)], capture_output=True, text=True,
                            cwd="/", timeout=600, env={"PATH": os.environ.get("PATH", ""), "IOFLO_VERIF": "1"})
         line = [l for l in p.stdout.splitlines() if l.startswith("@@C01@@")]
         if not line:
@@ -190,9 +207,45 @@ class CHECK(core.Check):
         state = [x for x in replies[-1].split() if x.split(":")[0] not in dyn and x != "-"]
         return outs + [" ".join(state) if state else "-"]
 
+    DRV_ENV = {"MALLOC_TRIM_THRESHOLD_": "2000000000", "MALLOC_MMAP_THRESHOLD_": "2000000000",
+               "MALLOC_TOP_PAD_": "67108864"}   # the model's state is a few large naturals: keep glibc from trimming
+
+    def _drive(self, lines):
+        if not lines:
+            return []
+        p = subprocess.run([os.path.join(core.BIN, "drv-" + self.ENGINE)], input="\n".join(lines) + "\n",
+                           stdout=subprocess.PIPE, stderr=subprocess.PIPE, text=True, timeout=3600,
+                           env=dict(os.environ, **self.DRV_ENV))
+        if p.returncode != 0:
+            raise core.Infra("driver %s failed rc=%s: %s" % (self.ENGINE, p.returncode, p.stderr[-2000:]))
+        out = p.stdout.split("\n")
+        if out and out[-1] == "":
+            out.pop()
+        if len(out) != len(lines):
+            raise core.Infra("driver %s: %d requests, %d replies" % (self.ENGINE, len(lines), len(out)))
+        return out
+
     def model(self, cases):
+        """like core.Check.model, but the cases are dealt over up to 16 driver processes"""
         self.ensure_driver()
-        return super().model(cases)
+        cases = list(cases)
+        k = max(1, min(16, len(cases) // 4))
+        batches = [cases[i::k] for i in range(k)]
+
+        def run(batch):
+            reqs, spans = [], []
+            for c in batch:
+                r = list(self.requests(c))
+                spans.append((len(reqs), len(r)))
+                reqs.extend(r)
+            replies = self._drive(reqs)
+            return [list(self.model_post(c, replies[a:a + n])) for c, (a, n) in zip(batch, spans)]
+        with concurrent.futures.ThreadPoolExecutor(k) as pool:
+            outs = list(pool.map(run, batches))
+        res = [None] * len(cases)
+        for i, o in enumerate(outs):
+            res[i::k] = o
+        return res
 
     # ------------------------------------------------------------------ cases
     def corpus(self):
@@ -202,13 +255,21 @@ class CHECK(core.Check):
         dom = self.domain()
         cases = [{"order": [m]} for m in dom]
         if tier == "thorough":
+            # what `import ioflo` itself loads (taken from the real run): a pair of two such modules only repeats
+            # "the second import is a no-op", so only every 7th of those pairs is kept
+            core_out = self.impl({"order": ["ioflo"]}) if "ioflo" in dom else ["-"]
+            core = {x.split(":")[0] for x in core_out[-1].split()}
             by_pkg = {}
             for m in dom:
                 by_pkg.setdefault(m.rpartition(".")[0], []).append(m)
+            k = 0
             for pkg, ms in sorted(by_pkg.items()):
                 for a in ms:
                     for b in ms:
                         if a != b:
+                            k += 1
+                            if a in core and b in core and k % 7:
+                                continue
                             cases.append({"order": [a, b]})
         return self.prefetch(cases)
 
@@ -273,7 +334,7 @@ class CHECK(core.Check):
     def is_stale(self, m):
         if m not in self._stale:
             self.ensure_driver()
-            self._stale[m] = core.Driver(self.ENGINE).run(["stale " + m])[0] == "true"
+            self._stale[m] = self._drive(["stale " + m])[0] == "true"
         return self._stale[m]
 
     def region(self, finding, case):
